@@ -93,7 +93,11 @@ def _load_config(filepath=None, suppress_warnings=False):
                     if max_calc_step_size := calculator.get('max_calc_step_size'):
                         try:
                             _val = max_calc_step_size.get("value")
-                            _units = Unit[max_calc_step_size.get("units")]
+                            # same name resolution as for the preferred units (any letter case, aliases)
+                            _units_name = max_calc_step_size.get("units")
+                            _units = _parse_unit(_units_name) if isinstance(_units_name, str) else None
+                            if _units is None:
+                                raise KeyError(_units_name)
                             set_global_max_calc_step_size(_units(_val))
                         except (KeyError, TypeError, ValueError):
                             if not suppress_warnings:
